@@ -165,7 +165,13 @@ fn artifact(plan: &Value) -> Option<(Vec<u8>, Option<PlainSessionKey>, Vec<u8>)>
         }
         "opaque" => {
             let body = payload_from_json(&plan["payload"]);
-            frame(jusize(plan, "tag") as u8, &body, &LenForm::NewMinimal).map(|b| (b, None, vec![]))
+            let mut s = frame(jusize(plan, "tag") as u8, &body, &LenForm::NewMinimal)?;
+            // followed by packets every parser knows, so that a mis-split of the opaque body shows
+            if jbool(plan, "followed") {
+                s.extend_from_slice(&frame(13, b"genuine <alice@example.org>", &LenForm::NewMinimal)?);
+                s.extend_from_slice(&frame(10, b"PGP", &LenForm::NewMinimal)?);
+            }
+            Some((s, None, vec![]))
         }
         _ => {
             let cfg = &plan["cfg"];
@@ -226,7 +232,9 @@ fn gen_reframe(ctx: &GenCtx) -> Vec<Value> {
                 3 => json!({"artifact":"sig","key": *p.pick(&["ed25519-v4","ed25519-v6","p256-v4","rsa-v4"])}),
                 4 => {
                     let len = *p.pick(&[0usize, 1, 191, 192, 193, 8383, 8384, 8385, 300, 70000]);
-                    json!({"artifact":"opaque","tag": p.below(64), "payload": {"gen":"random","len": len, "key": p.u64()}})
+                    // (a body made of well-formed packets makes a mis-split parse "successfully")
+                    let gen = if p.chance(1, 2) { "random" } else { "packets" };
+                    json!({"artifact":"opaque","tag": if p.chance(1,3) { 60 + p.below(4) } else { p.below(64) }, "followed": p.chance(2,3), "payload": {"gen": gen, "len": len, "key": p.u64()}})
                 }
                 _ => {
                     let cfg = msg_cfg(&mut p);
@@ -257,7 +265,7 @@ fn read_msg(stream: Arc<Vec<u8>>, sk: &Option<PlainSessionKey>, verifiers: &[&'s
         Some(k) => Opener::SessionKey(k.clone()),
         None => Opener::None,
     };
-    let spec = ReadSpec { armor: false, opener, consumer, verifiers: verifiers.to_vec(), max, streaming_v1: false, v1_limit: None };
+    let spec = ReadSpec { armor: false, opener, consumer, verifiers: verifiers.to_vec(), max, streaming_v1: false, v1_limit: None, opts: 0 };
     guard(|| workload::read_message(input, &spec))
 }
 
@@ -320,12 +328,31 @@ fn run_reframe(plan: &Value, rec: &mut Rec) {
             }
         }
     } else {
+        let reframed_copy = reframed.clone();
         let a = parse_packets(Arc::new(canonical), Sched::Full, 8192);
         let b = parse_packets(Arc::new(reframed), sched, cap);
         match (a, b) {
             (_, Err(p)) => rec.violation("panic", &norm_loc(&p.loc), format!("PacketParser panicked on a legal framing: {}", p.msg), plan.clone()),
             (Err(_), _) => rec.count("skip:canonical-panicked"),
             (Ok(a), Ok(b)) => {
+                // independent oracle: as many items as the deframer sees packets, with the same tags
+                // (an item may be an error - unsupported packet - but packets are neither lost nor invented)
+                if let Ok(pk) = deframe(&reframed_copy) {
+                    let tags: Vec<u8> = pk.iter().map(|p| p.tag).collect();
+                    let all_known_ok = b.iter().all(|x| x.is_ok());
+                    let got: Vec<Option<u8>> = b.iter().map(|x| x.as_ref().ok().map(|t| t.0)).collect();
+                    let mismatch = b.len() != tags.len() || got.iter().zip(tags.iter()).any(|(g, t)| g.map(|g| g != *t).unwrap_or(false));
+                    // a hard parse error legitimately ends the iteration early; only judge complete runs
+                    if mismatch && (all_known_ok || b.len() > tags.len()) {
+                        rec.violation(
+                            "mis-split",
+                            &site,
+                            format!("PacketParser yields {} items with tags {:?}; the stream consists of {} packets with tags {:?}", b.len(), got, tags.len(), tags),
+                            plan.clone(),
+                        );
+                        return;
+                    }
+                }
                 let norm = |v: &Vec<Result<(u8, Vec<u8>), String>>| -> Vec<Option<(u8, Vec<u8>)>> { v.iter().map(|x| x.as_ref().ok().cloned()).collect() };
                 if norm(&a) != norm(&b) {
                     let first = norm(&a).iter().zip(norm(&b).iter()).position(|(x, y)| x != y).unwrap_or(a.len().min(b.len()));
@@ -462,7 +489,27 @@ fn run_illegal(plan: &Value, rec: &mut Rec) {
 fn gen_written(ctx: &GenCtx) -> Vec<Value> {
     let n = ctx.n(100_000, 2_500_000);
     let thorough = ctx.tier == Tier::Thorough;
-    (0..n)
+    let mut plans: Vec<Value> = Vec::new();
+    // lengths on both sides of the 1-/2-/5-octet length encodings (191|192, 8383|8384): every payload length
+    // that puts the literal packet, the container around it or a final partial part there
+    let mut b = 0u64;
+    for enc in [json!({"k":"none"}), json!({"k":"v1","sym":"aes128"}), json!({"k":"v2","sym":"aes128","aead":"ocb","chunk":6})] {
+        for (source, partial) in [("bytes", 512u64), ("reader", 16384), ("reader", 512)] {
+            for edge in [192usize, 8384] {
+                for d in 0..=70usize {
+                    let base = if source == "reader" { partial as usize } else { 0 };
+                    let len = (base + edge + 3).saturating_sub(d);
+                    let mut p = Planner::new(ctx.seed, "c17.written.edge", b);
+                    b += 1;
+                    let cfg = json!({"source": source, "file_name": "", "data_mode":"binary", "partial": partial, "compression":"none", "signers": [],
+                        "enc": enc, "recipients": [], "passwords": if jstr(&enc,"k") == "none" { json!([]) } else { json!([{"pw":"p","s2k":{"k":"iterated","hash":"sha256","count":0}}]) },
+                        "armor": false, "rng_key": p.u64()});
+                    plans.push(json!({"cfg": cfg, "payload": {"gen":"random","len": len, "key": p.u64()}, "src_sched": {"k":"full"}, "sink_sched": {"k":"full"}}));
+                }
+            }
+        }
+    }
+    plans.extend((0..n)
         .map(|i| {
             let mut p = Planner::new(ctx.seed, "c17.written", i as u64);
             let mut cfg = workload::plan_cfg(&mut p, thorough, false);
@@ -471,8 +518,8 @@ fn gen_written(ctx: &GenCtx) -> Vec<Value> {
             let big = p.chance(1, 12);
             let payload = workload::plan_payload(&mut p, &cfg, if big { 70_000 } else { 9_000 });
             json!({"cfg": cfg, "payload": payload, "src_sched": p.sched().to_json(), "sink_sched": p.sched().to_json()})
-        })
-        .collect()
+        }));
+    plans
 }
 
 /// strict check of what a writer may emit, recursively through the layers that can be opened
@@ -484,6 +531,11 @@ fn monitor(stream: &[u8], sk: &Option<PlainSessionKey>, depth: usize, rec: &mut 
         }
         if p.indeterminate {
             return Err(format!("layer {depth}: indeterminate length written"));
+        }
+        for c in &p.chunks {
+            if !c.1 && (c.0 == 191 || c.0 == 192 || c.0 == 8383 || c.0 == 8384) {
+                rec.count(&format!("probe:length-{}-written", c.0));
+            }
         }
         if p.chunks.len() > 1 {
             rec.count("probe:partial-body-stream-written");
